@@ -260,6 +260,7 @@ def lit_specs(tier, seed):
               '\\8', '\\9', '\\08', '\\1234', '\\400', '\\377', '\\376', '\\3777', '\\xg', '\\x', '\\xfff', '\\e\\v\\b\\f\\a\\r', '\\E', '\\N', '\\0', '\\00', '\\000', '\\x0', '\\x00']
     for c in 'ntrbfaevNTRBFAEVxqz.?"\'\\':
         BOUND += ['\\' + c, 'p\\' + c + 'q', '\\' + c + '\\' + c]
+    BOUND += ['\\\r\n', 'a\\\r\nb', 'a\\\rb', 'x\r\ny', '\\\n\\\r\n']      # (a backslash before CR LF is not a line continuation: the bytes stay)
     for body in BOUND:
         for form in ('dq', 'sq', 'uq'):
             fr = zlib.crc32((form + body).encode('latin-1')) % FRAMES
